@@ -14,9 +14,21 @@ RULE = ("Cases are (ns, nswin, overlap, fs) with 0 <= overlap < nswin. The box n
         "nswin-overlap, clip, stop at end) plus validity predicates: cover without gap, consecutive overlap == "
         "requested, nwin == count, iw == running index, tscale == centre/fs, valid sub-windows partition [0,ns) "
         "(even overlaps), splicing amplitudes sum to 1 +-1e-12 (overlap <= nswin/2). Non-trivial = (>=2 windows and "
-        "last window shorter than 2*overlap) or (overlap 0 with >=2 windows) or ns <= nswin. Distinct = distinct triple.")
+        "last window shorter than 2*overlap) or (overlap 0 with >=2 windows) or ns <= nswin. Distinct = distinct case (triple, fs and the drawn reuse choices). "
+        "Object reuse: on ONE further WindowGenerator object the views are used the way a caller may - zip() of two or "
+        "three views alive at once, loops over a view nested in a loop over firstlast, nwin/tscale(fs) read inside a "
+        "firstlast loop, a view consumed twice in a row, a view abandoned half-way, a fresh iteration, then the "
+        "abandoned generator resumed; every generator must yield exactly the reference windows (and valid "
+        "partition / splicing sum / tscale / nwin as above); iw must be the running index whenever a single "
+        "generator advances (it is only recorded, not asserted, while several generators are interleaved: the "
+        "property does not define it there). These sub-checks run on every Hypothesis case (which draws the views "
+        "zipped, the positions of the nested loops / reads and the break point) and on the part of the box with "
+        "(ns<=48 and nswin<=12) or (ns+3*nswin+5*overlap) % 8 == 0 (every (nswin, overlap) pair with every 8th ns), "
+        "with fixed positions first/middle/last there.")
 EXHAUSTIVE_NOTE = "box ns x nswin x overlap enumerated completely (see rule); random triples beyond the box are sampled"
-ASSUMPTIONS = ["splicing sums are evaluated on arrays only for ns <= 200000; larger random cases check intervals only"]
+ASSUMPTIONS = ["splicing sums are evaluated on arrays only for ns <= 200000; larger random cases check intervals only",
+               "with more than 16 windows the nested loops and the nwin/tscale reads happen at three positions of the "
+               "outer loop only (drawn by Hypothesis, first/middle/last in the box), not at every iteration"]
 BUDGET = {"quick": 10000, "thorough": 400000}
 BOX = {"quick": (160, 32), "thorough": (600, 80)}
 
@@ -33,6 +45,9 @@ def enum_cases(desc):
         for ov in range(nswin):
             for ns in range(1, desc["ns_max"] + 1):
                 yield {"ns": ns, "nswin": nswin, "overlap": ov, "fs": 30000.0}
+
+
+VIEWS = ["firstlast", "slice", "firstlast_valid", "firstlast_splicing", "slice_array"]
 
 
 @st.composite
@@ -62,7 +77,13 @@ def _case(draw):
     if ns > 2 * 10 ** 7:
         ns = 2 * 10 ** 7
     fs = draw(st.sampled_from([1.0, 2500.0, 30000.0, 29999.757983]))
-    return {"ns": ns, "nswin": nswin, "overlap": ov, "fs": fs}
+    # object reuse: which views are zipped, where the nested loops / reads happen, where the iteration is abandoned
+    zipviews = draw(st.lists(st.sampled_from(VIEWS), min_size=2, max_size=3))
+    seqview = draw(st.sampled_from(VIEWS))
+    pos = draw(st.lists(st.integers(0, 400), min_size=1, max_size=3))
+    brk = draw(st.integers(0, 400))
+    return {"ns": ns, "nswin": nswin, "overlap": ov, "fs": fs, "reuse": True, "zipviews": zipviews, "seqview": seqview,
+            "pos": pos, "brk": brk}
 
 
 def strategy(tier):
@@ -171,3 +192,251 @@ def run_case(case, ctx):
                 err = float(np.max(np.abs(tot - 1)))
                 ctx.stat("splice_sum_err", err)
                 ctx.check(err <= 1e-12, "C17.splice_sum", lambda: f"splicing amplitudes sum deviates from 1 by {err:.3g}")
+    if _reuse_wanted(case):
+        _reuse(case, ctx, WG, ref)
+
+
+# ---------------------------------------------------------------------------------------------------------------------
+# object reuse: several views of ONE WindowGenerator alive at once / one after the other
+# ---------------------------------------------------------------------------------------------------------------------
+_END = object()
+_NITEM = {"firstlast": 2, "firstlast_valid": 4, "firstlast_splicing": 3}
+
+
+def _reuse_wanted(case):
+    r = case.get("reuse")
+    if r is not None:
+        return bool(r)
+    ns, nswin, ov = case["ns"], case["nswin"], case["overlap"]
+    return (ns <= 48 and nswin <= 12) or (ns + 3 * nswin + 5 * ov) % 8 == 0
+
+
+def _isint(x):
+    return isinstance(x, (int, np.integer)) and not isinstance(x, bool)
+
+
+class _Collector:
+    """What ONE generator of a view produced: the windows, plus the payload of the view checked against the property."""
+
+    def __init__(self, view, ns, ref, sig):
+        self.view, self.ns, self.ref, self.sig = view, ns, ref, sig
+        self.wins = []
+        self.valid = []
+        self.tot = np.zeros(ns) if view == "firstlast_splicing" else None
+        self.payload_bad = None
+
+    def add(self, item):
+        view, n = self.view, len(self.wins)
+        a, b = self.ref[n] if n < len(self.ref) else (0, 0)
+        if view == "slice":
+            if not (isinstance(item, slice) and _isint(item.start) and _isint(item.stop) and item.step is None):
+                self.wins.append(("not a slice", repr(item)[:60]))
+                return
+            self.wins.append((int(item.start), int(item.stop)))
+            return
+        if view == "slice_array":
+            same = n < len(self.ref) and np.shape(item) == (b - a,) and np.array_equal(item, self.sig[a:b])
+            self.wins.append((a, b) if same else ("not sig[first:last] of window", n))
+            return
+        if not (isinstance(item, tuple) and len(item) == _NITEM[view] and _isint(item[0]) and _isint(item[1])):
+            self.wins.append(("malformed item", repr(item)[:60]))
+            return
+        w = (int(item[0]), int(item[1]))
+        self.wins.append(w)
+        if view == "firstlast_valid":
+            if _isint(item[2]) and _isint(item[3]):
+                self.valid.append((w[0], w[1], int(item[2]), int(item[3])))
+            else:
+                self.payload_bad = self.payload_bad or f"valid bounds of window {n} are not integers"
+        elif view == "firstlast_splicing" and w == (a, b) and n < len(self.ref):
+            amp = item[2]
+            if isinstance(amp, np.ndarray) and amp.shape == (b - a,) and amp.dtype.kind == "f":
+                self.tot[a:b] += amp
+            else:
+                self.payload_bad = self.payload_bad or f"amplitude of window {n} has shape {np.shape(amp)}"
+
+    def judge(self, ctx, where, wins=None, ref=None):
+        """Same oracle as the one-view-at-a-time part. `where` names the usage pattern in the message."""
+        wins = self.wins if wins is None else wins
+        ref = self.ref if ref is None else ref
+        if not ctx.check(wins == ref, "C17.reuse_windows",
+                         lambda: f"{where}: {self.view} yields {wins[:4]}..{wins[-2:]} ({len(wins)} windows), "
+                                 f"reference {ref[:4]}..{ref[-2:]} ({len(ref)} windows)"):
+            return False
+        if ref is not self.ref:
+            return True
+        if self.view == "firstlast_valid":
+            okv, pos = self.payload_bad is None and len(self.valid) == len(ref), 0
+            if okv:
+                for (a, b, fv, lv) in self.valid:
+                    okv = okv and fv == pos and a <= fv < lv <= b
+                    pos = lv
+                okv = okv and pos == self.ns
+            ctx.check(okv, "C17.reuse_valid_partition",
+                      lambda: f"{where}: valid sub-windows do not partition [0,{self.ns}): {self.payload_bad} {self.valid[:4]}")
+        if self.view == "firstlast_splicing":
+            if ctx.check(self.payload_bad is None, "C17.reuse_splice_windows", lambda: f"{where}: {self.payload_bad}"):
+                err = float(np.max(np.abs(self.tot - 1)))
+                ctx.stat("splice_sum_err", err)
+                ctx.check(err <= 1e-12, "C17.reuse_splice_sum",
+                          lambda: f"{where}: splicing amplitudes sum deviates from 1 by {err:.3g}")
+        return True
+
+
+def _reuse(case, ctx, WG, ref):
+    ns, nswin, ov, fs = case["ns"], case["nswin"], case["overlap"], case["fs"]
+    nref = len(ref)
+    cap = nref + 2
+    sig = np.arange(ns) * 3 + 1 if ns <= 2000 else None
+    exp_ts = np.array([((a + b - 1) / 2) / fs for a, b in ref])
+
+    def usable(v):
+        if v == "firstlast_valid":
+            return ov % 2 == 0  # documented precondition (assert in the code)
+        if v == "firstlast_splicing":
+            return 2 * ov <= nswin and ns <= 200000  # property: overlaps up to half a window; cost
+        if v == "slice_array":
+            return ns <= 2000  # cost
+        return v in VIEWS
+
+    def norm(v):
+        return v if usable(v) else "firstlast"
+
+    zips = []
+    if usable("firstlast_splicing"):
+        zips.append(["firstlast", "firstlast_splicing"])
+        ctx.label("reuse_zip_splicing")
+    zips.append(["firstlast_valid", "slice"] if usable("firstlast_valid") else ["firstlast", "slice"])
+    zv = case.get("zipviews")
+    if zv:
+        zips.append([norm(v) for v in zv][:3])
+        ctx.label("reuse_zip%d" % len(zips[-1]))
+    seqview = norm(case.get("seqview", "firstlast"))
+    if nref <= 16:
+        posset = set(range(nref))
+    else:
+        posset = {int(p) % nref for p in case.get("pos", [0, nref // 2, nref - 1])}
+    brk = int(case.get("brk", nref // 2)) % nref
+    ctx.label("reuse", "reuse_seq_" + seqview)
+    if brk + 1 < nref:
+        ctx.label("reuse_break_midway")
+
+    wg = ctx.call("C17.construct", WG, ns, nswin, ov)
+    if wg is ctx.CRASH:
+        return
+
+    def gen(view):
+        return wg.slice_array(sig) if view == "slice_array" else getattr(wg, view)
+
+    def col(view):
+        return _Collector(view, ns, ref, sig)
+
+    # (a) several views alive at once, advanced in lock-step
+    for views in zips:
+        where = "zip(" + ", ".join("wg." + v for v in views) + ")"
+
+        def _zip():
+            gens = [iter(gen(v)) for v in views]
+            cols = [col(v) for v in views]
+            n, drift = 0, 0
+            for items in itertools.islice(zip(*gens), cap):
+                for c, it in zip(cols, items):
+                    c.add(it)
+                iw = wg.iw
+                drift = max(drift, abs(iw - n)) if _isint(iw) else -1
+                n += 1
+            # zip stops at the first exhausted generator: the others must have nothing left either
+            left = [v for v, g in zip(views, gens) if n <= nref and next(g, _END) is not _END]
+            return cols, left, drift
+        r = ctx.call("C17.reuse_zip", _zip)
+        if r is ctx.CRASH:
+            continue
+        cols, left, drift = r
+        ctx.stat("iw_drift_while_interleaved", drift)  # recorded only, see RULE
+        good = all([c.judge(ctx, where) for c in cols])
+        if good:
+            ctx.check(not left, "C17.reuse_windows", lambda: f"{where}: {left} yield more windows than the reference")
+
+    # (a) loops over a view nested inside a loop over firstlast
+    inner_views = ["firstlast", "slice", norm("firstlast_valid")]
+
+    def _nested():
+        outer, inners = col("firstlast"), []
+        for i, fl in enumerate(itertools.islice(wg.firstlast, cap)):
+            outer.add(fl)
+            if i in posset:
+                c = col(inner_views[len(inners) % 3])
+                for it in itertools.islice(gen(c.view), cap):
+                    c.add(it)
+                inners.append((i, c))
+        return outer, inners
+    r = ctx.call("C17.reuse_nested", _nested)
+    if r is not ctx.CRASH:
+        outer, inners = r
+        outer.judge(ctx, "outer loop over wg.firstlast with loops over other views nested in it")
+        for i, c in inners:
+            if not c.judge(ctx, f"loop nested in iteration {i} of a loop over wg.firstlast"):
+                break
+
+    # (b) nwin and tscale read inside the loop
+    def _reads():
+        outer, reads = col("firstlast"), []
+        for i, fl in enumerate(itertools.islice(wg.firstlast, cap)):
+            outer.add(fl)
+            if i in posset:
+                reads.append((i, wg.nwin, wg.tscale(fs)))
+        return outer, reads
+    r = ctx.call("C17.reuse_reads", _reads)
+    if r is not ctx.CRASH:
+        outer, reads = r
+        outer.judge(ctx, "loop over wg.firstlast with wg.nwin and wg.tscale(fs) read inside the loop")
+        for i, nw, ts in reads:
+            ok1 = ctx.check(_isint(nw) and nw == nref, "C17.reuse_nwin",
+                            lambda: f"nwin={nw!r} read in iteration {i} of a loop over firstlast, {nref} windows")
+            ok2 = ctx.check(np.shape(ts) == exp_ts.shape and np.allclose(ts, exp_ts, rtol=1e-12, atol=0),
+                            "C17.reuse_tscale", lambda: f"tscale read in iteration {i} of a loop over firstlast is "
+                                                        f"not the centre of each window (shape {np.shape(ts)})")
+            if not (ok1 and ok2):
+                break
+
+    # (c) the same view twice in a row; abandoned half-way, fresh iteration, abandoned generator resumed
+    def _full():
+        c, iws = col(seqview), []
+        for it in itertools.islice(gen(seqview), cap):
+            c.add(it)
+            iws.append(wg.iw)
+        return c, iws
+
+    def _iw_ok(iws, where):
+        ctx.check(iws == list(range(len(iws))) and all(_isint(x) for x in iws), "C17.reuse_iw",
+                  lambda: f"{where}: iw is not the running window index: {iws[:6]}")
+
+    for rep in ("first", "second"):
+        r = ctx.call("C17.reuse_twice", _full)
+        if r is not ctx.CRASH:
+            where = f"{rep} of two consecutive loops over wg.{seqview}"
+            if r[0].judge(ctx, where):
+                _iw_ok(r[1], where)
+
+    def _abandon():
+        c0, iws0 = col(seqview), []
+        g = iter(gen(seqview))
+        for it in itertools.islice(g, brk + 1):
+            c0.add(it)
+            iws0.append(wg.iw)
+        fresh, iws1 = _full()
+        c0.wins_before = len(c0.wins)
+        for it in itertools.islice(g, cap):
+            c0.add(it)
+        return c0, iws0, fresh, iws1
+    r = ctx.call("C17.reuse_abandon", _abandon)
+    if r is not ctx.CRASH:
+        c0, iws0, fresh, iws1 = r
+        where = f"loop over wg.{seqview} abandoned after {brk + 1} windows"
+        nb = c0.wins_before
+        if c0.judge(ctx, where, wins=c0.wins[:nb], ref=ref[:brk + 1]):
+            _iw_ok(iws0, where)
+        where = f"fresh loop over wg.{seqview} after one abandoned after {brk + 1} windows"
+        if fresh.judge(ctx, where):
+            _iw_ok(iws1, where)
+        c0.judge(ctx, f"generator of wg.{seqview} paused after {brk + 1} windows and resumed after a complete fresh loop")
